@@ -2,10 +2,15 @@ package jsonapi
 
 import (
 	"encoding/json"
+	"errors"
 	"fmt"
 	"reflect"
 	"sort"
 )
+
+// errLinkageType is the internal error for a resource identifier object whose
+// type is not the relationship's type.
+var errLinkageType = errors.New("jsonapi: resource linkage has the wrong type")
 
 // A Resource is an element of a collection.
 type Resource interface {
@@ -182,6 +187,10 @@ func UnmarshalResource(data []byte, schema *Schema) (Resource, error) {
 				if rel.ToOne {
 					var iden Identifier
 					err = json.Unmarshal(v.Data, &iden)
+					if err == nil && string(v.Data) != "null" && iden.Type != rel.ToType {
+						err = errLinkageType
+					}
+
 					res.Set(rel.FromName, iden.ID)
 				} else {
 					var idens Identifiers
@@ -189,6 +198,10 @@ func UnmarshalResource(data []byte, schema *Schema) (Resource, error) {
 					ids := make([]string, len(idens))
 					for i := range idens {
 						ids[i] = idens[i].ID
+
+						if err == nil && idens[i].Type != rel.ToType {
+							err = errLinkageType
+						}
 					}
 					res.Set(rel.FromName, ids)
 				}
@@ -272,6 +285,10 @@ func UnmarshalPartialResource(data []byte, schema *Schema) (*SoftResource, error
 				if rel.ToOne {
 					var iden Identifier
 					err = json.Unmarshal(v.Data, &iden)
+					if err == nil && string(v.Data) != "null" && iden.Type != rel.ToType {
+						err = errLinkageType
+					}
+
 					_ = newType.AddRel(rel)
 					res.Set(rel.FromName, iden.ID)
 				} else {
@@ -280,6 +297,10 @@ func UnmarshalPartialResource(data []byte, schema *Schema) (*SoftResource, error
 					ids := make([]string, len(idens))
 					for i := range idens {
 						ids[i] = idens[i].ID
+
+						if err == nil && idens[i].Type != rel.ToType {
+							err = errLinkageType
+						}
 					}
 					_ = newType.AddRel(rel)
 					res.Set(rel.FromName, ids)
